@@ -7,6 +7,27 @@
 (* succeed at the next).                                                                          *)
 
 Kinds == {"att", "agg", "proposal", "syncmsg", "contrib", "bcsub", "scsub", "prep"}
+\* THE SIBLING FAN-OUTS (round 5).  The eight kinds above are the operations of the submitter service
+\* (services/submitter).  A running Vouch also fans a submission out to several nodes in three places
+\* that do NOT go through the submitter (main.go: initProposalPreparer, selectBlockRelay):
+\*   "prepdirect" - services/proposalpreparer/standard.updateProposalPreparations: the proposal
+\*                  preparations of an epoch to every beacon node configured for proposing, one node
+\*                  after the other with the caller's context, no time-out (this, not the submitter's
+\*                  "prep", is how preparations travel in production);
+\*   "regnodes"   - services/blockrelay/standard.submitConsensusRegistrations: the validator
+\*                  registrations of a round to every (secondary) beacon node configured for proposing,
+\*                  one goroutine per node, wg.Wait(), no time-out;
+\*   "regrelays"  - services/blockrelay/standard.submitRelayRegistrations (registration rounds and the
+\*                  REST forwarding alike): to every relay of the resolved settings, one goroutine per
+\*                  relay, wg.Wait(), no time-out.
+\* They are operation kinds of the same property: offered in full to every node configured for it; a
+\* node that errors never prevents delivery to, or success via, the others.  They have no time-out and
+\* no reported result (the preparer only feeds a metric), so the time-out clauses do not read them.
+DirectKinds == {"prepdirect", "regnodes", "regrelays"}
+AllKinds == Kinds \cup DirectKinds
+Timed(k) == k \in Kinds
+\* the fan-out as the code has it: sequential in the configured order / one goroutine per node
+SeqKinds == {"prepdirect"}
 Clients == {"lighthouse", "teku", "nimbus", "prysm", "lodestar", "unknown", "broken"}
     \* "unknown": the node does not tell its version (no version endpoint at all);
     \* "broken": the version query fails at every call (the single-submission table; in histories
@@ -38,7 +59,9 @@ Reasons == {"none",
                                 \* (a payload that arrives in one piece is rejected for the real reason)
             "noFailures",       \* error JSON without a failures array (e.g. a 500)
             "emptyFailures",    \* error JSON with "failures": []
-            "badJson"}          \* text with a brace that is not JSON
+            "badJson",          \* text with a brace that is not JSON
+            "notActive"}        \* eth2client.ErrNotActive: the client knows that its node is down (the proposal
+                                \* preparer does not count it as a failure; nothing was delivered all the same)
 
 \* The rejections Vouch deliberately tolerates (comments in submitattestations.go,
 \* submitsynccommitteemessages.go, submitsynccommitteecontributions.go): already known, or node
@@ -58,6 +81,7 @@ ReasonsOf(kind) ==
                               "noFailures", "emptyFailures", "badJson"}
       [] kind = "contrib" -> {"plain", "deadline", "lhAggKnownAll", "lhAggKnownSome", "noFailures",
                               "emptyFailures", "badJson"}
+      [] kind \in DirectKinds -> {"plain", "deadline", "notActive"}
       [] OTHER -> {"plain", "deadline", "lhPrior", "noFailures"}
 
 \* A node at one submission: who it is (client), whether its version query works during this
@@ -83,6 +107,8 @@ TolReason(kind) ==
       [] kind = "contrib" -> "lhAggKnownAll"
       [] OTHER -> "lhPrior"        \* nothing is tolerated for the other kinds: a plain rejection
 Outcomes == {"accept", "reject", "treject", "malformed", "slowok", "late", "hang"}
+\* further outcomes of the sibling fan-outs: the node's client says "not active" / gave up after its own time-out
+DirectOutcomes == {"inactive", "gaveup", "slowgaveup1"}
 \* The widened alphabet (round 4): delayed replies of either sign with a rank, so that rejections can
 \* arrive before, between and after acceptances within the time-out.
 SlowOutcomes == {"slowok1", "slowok2", "slowok3", "slowrej1", "slowrej2", "slowtrej1", "slowtrej2"}
@@ -96,6 +122,9 @@ Canon(kind, o) ==
             ELSE NodeL(TolClient(kind), "ok", "slowerr", TolReason(kind), SlowLat(o)))
       [] o = "accept" -> Node("prysm", "accept", "none")
       [] o = "reject" -> Node("lighthouse", "error", "plain")
+      [] o = "inactive" -> Node("prysm", "error", "notActive")
+      [] o = "gaveup" -> Node("teku", "error", "deadline")
+      [] o = "slowgaveup1" -> NodeL("teku", "ok", "slowerr", "deadline", 1)
       [] o = "treject" -> Node(TolClient(kind), "error", TolReason(kind))
       [] o = "malformed" -> Node(TolClient(kind), "error", "noFailures")
       [] o = "slowok" -> Node("teku", "slowok", "none")
@@ -122,6 +151,9 @@ HNode(kind, client, o, v) ==
             ELSE NodeL(client, v, "slowerr", TolReasonOf(kind, client), SlowLat(o)))
       [] o = "accept" -> NodeV(client, v, "accept", "none")
       [] o = "reject" -> NodeV(client, v, "error", "plain")
+      [] o = "inactive" -> NodeV(client, v, "error", "notActive")
+      [] o = "gaveup" -> NodeV(client, v, "error", "deadline")
+      [] o = "slowgaveup1" -> NodeL(client, v, "slowerr", "deadline", 1)
       [] o = "treject" -> NodeV(client, v, "error", TolReasonOf(kind, client))
       [] o = "malformed" -> NodeV(client, v, "error", "noFailures")
       [] o = "slowok" -> NodeV(client, v, "slowok", "none")
